@@ -29,7 +29,7 @@ func init() {
 				Rule: "case = one tree shape (beta in {0,250,600,900,1000,...}, built by a C01-style history or bulk New) with: Cursor(k) for EVERY key and for absent keys around every key; full forward (Min, Next...) and backward (Max, Prev...) sweeps with HasNext/HasPrev before each move; subtree checks at every node (everything through Left smaller, through Right larger, Cursor.Inorder == subtree keys ascending, early stop, the same cursor scanned again from inside its own scan (re-entrancy; cursors obtained by Cursor(k) and by moves from the root), Min/Max land on subtree extremes, Up after Left/Right returns); " +
 					"random walks (Next/Prev/Left/Right/Up/Min/Max/Clone, 200-2000 moves) of a population of up to 4 cursors with shadow positions, all cursors re-checked after every move; sparse-observation walks (only Valid/Key looked at after each move, the Has* predicates asked occasionally and not re-asked before the next move); cursors looked up, the tree cloned, the original modified, and the clone checked through every cursor operation; nil and invalidated cursors: every method a harmless no-op. " +
 					"distinct = hash of (shape as parent vector, walk seed); non-trivial = the shape has depth >= 4 and the walks included a Next/Prev that climbed >= 2 ancestors",
-				Required:     []string{"shapes", "next_climb_ge2", "prev_climb_ge2", "clone_moves", "invalid_cursor_probes", "absent_key_probes", "shapes_depth_ge10", "walk_moves", "empty_trees", "shapes_with_wide_comparator", "sparse_walk_moves", "clone_after_lookup_checks", "reentrant_scans", "cursors_reached_by_moves", "bulk_new_with_repeated_keys", "abandoned_scans", "scans_with_cursor_moved_inside", "very_deep_shapes"},
+				Required:     []string{"shapes", "next_climb_ge2", "prev_climb_ge2", "clone_moves", "invalid_cursor_probes", "absent_key_probes", "shapes_depth_ge10", "walk_moves", "empty_trees", "shapes_with_wide_comparator", "sparse_walk_moves", "clone_after_lookup_checks", "reentrant_scans", "cursors_reached_by_moves", "bulk_new_with_repeated_keys", "abandoned_scans", "scans_with_cursor_moved_inside", "very_deep_shapes", "tree_reads_with_open_cursors"},
 				Assumptions:  []string{"Cursor.Inorder is read as listing the subtree where the cursor stood when Inorder was called, also if the loop body moves that cursor", "set contents are taken from Tree.Inorder (property C01)", "the structure used as shadow model is itself read through the cursor API, and is accepted only if two independent readings agree and form a binary search tree over exactly the reference set"},
 				CoverPkgs:    []string{"github.com/creachadair/mds/stree"},
 				CoverAnchors: []string{"stree/cursor.go", "stree/stree.go:Cursor", "stree/stree.go:Root", "stree/node.go:pathTo"},
@@ -491,6 +491,16 @@ func (k *c03case) randomWalk(moves int) (climbed bool) {
 		}
 		k.walk.add("c%d.%s", ci, names[mv])
 		k.c.Add("walk_moves", 1)
+		if m%37 == 11 {
+			// read-only calls on the tree while cursors are open: Clone (the copy is
+			// dropped), Len, Get, a full Inorder. None of them may disturb a cursor.
+			k.walk.add("tree.Clone(); tree.Len(); tree.Get; tree.Inorder")
+			_ = k.t.Clone()
+			k.t.Len()
+			k.t.Get(Elem{Key: k.ref[m%n].Key})
+			k.t.Inorder(func(Elem) bool { return true })
+			k.c.Add("tree_reads_with_open_cursors", 1)
+		}
 		switch mv {
 		case 0:
 			if cu.pos >= 0 {
